@@ -18,11 +18,15 @@ func init() {
 }
 
 // dataRenderer records the data handed to the JSON "redirect" page.
-type dataRenderer struct{ last authboss.HTMLData }
+type dataRenderer struct {
+	last authboss.HTMLData
+	page string
+}
 
 func (d *dataRenderer) Load(names ...string) error { return nil }
 func (d *dataRenderer) Render(ctx context.Context, page string, data authboss.HTMLData) ([]byte, string, error) {
 	d.last = data
+	d.page = page
 	return []byte("{}"), "application/json", nil
 }
 
